@@ -2,7 +2,7 @@
 """Regenerates /verif/MANIFEST.json from the table below (kept in sync with harness/src/props)."""
 import json, os, subprocess
 HERE = os.path.dirname(os.path.dirname(os.path.abspath(__file__)))
-TECH = "runtime monitor: real API driven by boundary-lattice + stratified random workloads, every call recorded at the client boundary and judged by an independent executable reference model (i128 / closed-form calendar / IERS table); panics and arithmetic overflow observed through catch_unwind under overflow-checks; fourteen cold-start probes (fresh processes whose first library calls are the monitors on a zero-like anchor) per run for state that outlives a call; one epoch in 32 pre-touched through unjudged read-only accessors (history diversity for state keyed on the value in hand); the committed corpus of a coverage-guided driver (libFuzzer feeding the workload's PRNG, same monitors) replayed in every run and searched live in the thorough tier, which also repeats the workload in a plain release build, under AddressSanitizer (string-facing properties) and under Miri (C13); sampled event log re-decided offline by a second implementation of the oracle"
+TECH = "runtime monitor: real API driven by boundary-lattice + stratified random workloads, every call recorded at the client boundary and judged by an independent executable reference model (i128 / closed-form calendar / IERS table); panics and arithmetic overflow observed through catch_unwind under overflow-checks; fourteen cold-start probes (fresh processes whose first library calls are the monitors on a zero-like anchor) per run for state that outlives a call; injected history for state that outlives a call: one epoch in 32 (one duration in 64) is preceded by unjudged calls on the value itself, its mirror image, a neighbour at one of sixteen distances or a sentinel next to a bound - read-only accessors, another leap-second table, two-operand calls with the epoch built just before; the committed corpus of a coverage-guided driver (libFuzzer feeding the workload's PRNG, same monitors) replayed in every run and searched live in the thorough tier, which also repeats the workload in a plain release build, under AddressSanitizer (string-facing properties), under valgrind memcheck (C06 C10 C11 C13 C19) and under Miri (C13); sampled event log re-decided offline by a second implementation of the oracle"
 P = {
  "C01": ("M-DUR i128 model of + - neg abs *i64 /i64 and compound/Unit forms; all lattice pairs + random pairs", "3.C01"),
  "C02": ("canonical-form predicate and integer read-back model on every constructor/accessor", "3.C02"),
